@@ -47,4 +47,12 @@ DEGENERATE_ERRORS = ('max() iterable argument is empty', 'max() arg is an empty 
 def is_degenerate(res):
     """the converter's Progress bars call max() on the (empty) list of live volumes/surfaces when
     a deck has nothing to convert; such generated decks are skipped, not counted"""
-    return res.exc_type == 'ValueError' and any(m in (res.exc_msg or '') for m in DEGENERATE_ERRORS)
+    deg = res.exc_type == 'ValueError' and any(m in (res.exc_msg or '') for m in DEGENERATE_ERRORS)
+    if deg:
+        # remembered for the framework: a few such decks are normal, a stream of them is not (see run_job)
+        LAST_DEGENERATE.append({'deck': getattr(res, 'deck', None), 'args': getattr(res, 'argv', None),
+                                'error': '%s: %s' % (res.exc_type, res.exc_msg)})
+    return deg
+
+
+LAST_DEGENERATE = []
